@@ -361,6 +361,7 @@ def pin_undriven(M):
         w = len(sig)
         full = (1 << w) - 1
         driven = (sim.comb_mask.get(s, 0) | sim.sync_mask.get(s, 0)) & full
+        driven &= ~_stuck_mask(M, s)
         if driven == full or w == 0:
             continue
         v = s.curr
@@ -368,6 +369,74 @@ def pin_undriven(M):
         if sig.shape().signed:
             u = sym_ite((u & (1 << (w - 1))) != 0, u | (-1 << w), u)
         s.curr = s.next = u
+
+
+def _stuck_mask(M, slot):
+    for (s2, m2) in getattr(M, "stuck_list", []):
+        if s2 is slot:
+            return m2
+    return 0
+
+
+def inductive_init_bits(M):
+    """Bits (of signals some clocked process writes) for which `bit == init` is an inductive invariant: no process, run
+    from an arbitrary state in which the bit has its initial value, can change it.  Returns a truthy value if any."""
+    from amaranth.sim._pyrtl import PyRTLProcess
+    sim = M.sim
+    procs = [p for p in sim.processes if isinstance(p, PyRTLProcess) and not p.is_comb]
+    cand = []
+    for s in sim.state.slots:
+        if not hasattr(s, "signal"):
+            continue
+        sig = s.signal
+        if any(sig is x for x in M.ins) or sim.is_clock(sig) or any(sig is r for r in sim.reset_signals) or len(sig) == 0:
+            continue
+        full = (1 << len(sig)) - 1
+        m = sim.sync_mask.get(s, 0) & ~sim.comb_mask.get(s, 0) & full
+        if m:
+            cand.append([s, m])
+    if not cand or not procs:
+        M.stuck_list = []
+        return {}
+    sig_slots = [s for s in sim.state.slots if hasattr(s, "signal")]
+
+    def scen():
+        sim.reset()
+        sim.sym_state("w")
+        pre = [s.curr for s, _ in cand]
+        res = []
+        for p in procs:
+            for s in sig_slots:
+                s.next = s.curr
+            p.run()
+            res.append([s.next for s, _ in cand])
+        for s in sig_slots:
+            s.next = s.curr
+        return pre, res
+    paths = explore(scen, max_paths=64)
+    for path in paths:
+        if path.exc is not None:
+            raise Unsupported(f"invariant run: {path.exc}")
+        pre, res = path.value
+        for k, (s, m) in enumerate(cand):
+            w = len(s.signal)
+            init = s.signal.init & ((1 << w) - 1)
+            a = z3.Extract(w - 1, 0, term_of(pre[k], w + 1)) if is_sym(pre[k]) else z3.BitVecVal(pre[k] & ((1 << w) - 1), w)
+            for nxts in res:
+                n = nxts[k]
+                b = z3.Extract(w - 1, 0, term_of(n, w + 1)) if is_sym(n) else z3.BitVecVal(n & ((1 << w) - 1), w)
+                for bit in range(w):
+                    if not (cand[k][1] >> bit) & 1:
+                        continue
+                    iv = z3.BitVecVal((init >> bit) & 1, 1)
+                    so = z3.Solver()
+                    for c in path.pc:
+                        so.add(c)
+                    so.add(z3.Extract(bit, bit, a) == iv, z3.Extract(bit, bit, b) != iv)
+                    if timed_check(so) != z3.unsat:
+                        cand[k][1] &= ~(1 << bit)
+    M.stuck_list = [(s, m) for s, m in cand if m]
+    return {i: m for i, (s, m) in enumerate(M.stuck_list)}
 
 
 def _ports(ins, outs):
@@ -431,6 +500,8 @@ def check_design(job):
     r0 = dict(base, kind="initial state", assertion="register init attributes and memory initial rows equal the simulator's initial values",
               status=PROVED, detail="", nontrivial=False)
     sim.reset()
+    sim.settle()
+    settled0 = {}
     bad = []
     for ci in R.state_cells()["dff"]:
         name, kind, params, ports = R.cells[ci]
@@ -445,8 +516,15 @@ def check_design(job):
                 bad.append(f"{w}[{b}] (register bit of {sig.name}) has no \\init attribute")
                 continue
             iv = (int(ia[2][::-1] or "0", 2) >> b) & 1
-            if ((sig.init >> sb) & 1) != iv:
-                bad.append(f"{w}[{b}] init {iv} vs signal {sig.name} init bit {(sig.init >> sb) & 1}")
+            # (the net of a register may be named after a combinational signal that merely aliases it: what counts is the
+            # value the signal has in the simulator at time zero, which for a register is its init)
+            v0 = settled0.get(id(sig))
+            if v0 is None:
+                v0 = sim.value(sig)
+                v0 = sig.init if is_sym(v0) else v0
+                settled0[id(sig)] = v0
+            if ((v0 >> sb) & 1) != iv:
+                bad.append(f"{w}[{b}] init {iv} vs signal {sig.name} initial value bit {(v0 >> sb) & 1}")
     try:
         st0, _ = M.rtlil_state_from_sim()
         for mname in R.memories:
@@ -462,7 +540,7 @@ def check_design(job):
     # --- comb + step per event
     evs, doms = domain_events(M)
     rst_sigs = [d.rst for d in doms if d.rst is not None]
-    for (desc, changes, dom) in [("combinational", [], None)] + evs:
+    def run_event(desc, changes, dom):
         res = dict(base, kind=desc, status=PROVED, detail="", cex=None,
                    assertion="every top-level output and every named register / memory row / read-port register agrees after the event",
                    symbolic="all registers, memory rows, inputs and synchronous resets")
@@ -520,11 +598,9 @@ def check_design(job):
         try:
             paths = explore(scen, max_paths=32)
         except (Inconclusive, Unsupported) as e:
-            out.append(dict(res, status=INCONCLUSIVE, detail=f"{type(e).__name__}: {e}"))
-            continue
+            return dict(res, status=INCONCLUSIVE, detail=f"{type(e).__name__}: {e}")
         except rtlil_smt.Unsupported as e:
-            out.append(dict(res, kind="unsupported", status="skipped", detail=str(e)))
-            continue
+            return dict(res, kind="unsupported", status="skipped", detail=str(e))
         for p in paths:
             if p.exc is not None:
                 if isinstance(p.exc, rtlil_smt.RtlilError):
@@ -576,6 +652,19 @@ def check_design(job):
                 else:
                     res.update(status=UNREPRODUCED, detail=f"event '{desc}': symbolic difference on {badn[:5]} did not reproduce concretely")
                 break
+        return res
+    for (desc, changes, dom) in [("combinational", [], None)] + evs:
+        res = run_event(desc, changes, dom)
+        if res.get("status") in (VIOLATION, UNREPRODUCED) and (res.get("signature") or {"kind": "mismatch"}).get("kind") == "mismatch" and not getattr(M, "stuck_done", False):
+            # the symbolic pre-state may be unreachable: strengthen it with the inductive invariant "bits no process can
+            # move away from their initial value stay there", then decide the event again
+            M.stuck_done = True
+            try:
+                M.stuck = inductive_init_bits(M)
+            except (Inconclusive, Unsupported):
+                M.stuck = {}
+            if M.stuck:
+                res = run_event(desc, changes, dom)
         out.append(res)
     return [x for x in out if x.get("status") != "skipped" or True]
 
